@@ -555,3 +555,7 @@ pub(crate) fn load_from_jax_files<P: AsRef<Path>>(
         .calculate_information_content()?
         .build_with_defaults()
 }
+
+#[cfg(kani)]
+#[path = "/verif/kani/parser.rs"]
+mod verif_kani;
